@@ -240,6 +240,11 @@ class DefaultPredictionStrategy(object):
             inv_root=new_covar_cache,
         )
         # (the reader, _mean_cache, is keyed by the NaN policy; the update above is the one of the "ignore" policy)
+        if fant_mean_cache.grad_fn is not None:
+            # as in _mean_cache: a backward pass through the cache frees its graph, so the cache must not outlive it
+            wrapper = functools.partial(clear_cache_hook, fant_strat)
+            functools.update_wrapper(wrapper, clear_cache_hook)
+            fant_mean_cache.grad_fn.register_hook(wrapper)
         add_to_cache(fant_strat, "mean_cache", fant_mean_cache, "ignore")
         add_to_cache(fant_strat, "covar_cache", new_covar_cache.to_dense())
         return fant_strat
